@@ -18,6 +18,7 @@ def cat(m):
     if f in ('electreIII.writePositionsSequentially','criteria_splitting.(*CriteriaSplitCondition).validate','choquet.remapWeights','owa.(*OWAPreferenceFunc).ParseParams','owa.validateSameCriteriaAndWeightsCount'): return 'D'
     if f in ('anchoring.isBetter','anchoring.canNewBeBetter','aspect_elimination.sortCriteria','electreIII.calculateElectreResult','model.(*AlternativeResults).Less','model.ValuesRangeWithGroundZero','criteria_ordering.(*WeakestByProbabilityCriteriaOrderingResolver).OrderCriteria','fatigue.blurCriteriaValues','choquet.PowerSetSize','model.(*Criteria).First') or (f.endswith('.Next') and m['kind']=='argswap'): return 'F'
     if f in ('anchoring.arithmeticAverage','aspect_elimination.makeWeightPair','aspect_elimination.fillRemainingAlternatives','electreIII.(*ElectreIIIBiasLIstener).Merge','owa.additionAsOwaParams','owa.(*owaParams).merge','model.(*AlternativeWithCriteria).WithCriterion','model.(*DecisionMakingParams).AllAlternatives','model.(*Weights).Merge','utils.rejectAmbiguousKeys'): return 'G'
+    if f=='criteria_mixing.(*criteriaToMix).mix' and m['kind']=='argswap' and 'math.M' in o or (f=='criteria_mixing.(*criteriaToMix).mix' and m['kind']=='argswap' and o.strip()=='c1Value, c2Value'): return 'F'
     if f in ('main.writeError','electreIII.NewMatrix'): return 'H'
     return 'Z'
 names={'A':'String()/Error() renderings (no property constrains them; messages may differ by C02)',
